@@ -33,6 +33,12 @@ def ser(kind, tiers):
                    "sqfs_inode_set_xattr_index, sqfs_inode_make_basic, sqfs_inode_make_extended (lib/sqfs/src/inode.c)"],
         bound="one tree node (%s) with %s, symbolic ids, times, link count, xattr index; every step of the serialiser may fail" % (nm, "permission bits 04751" if kind <= 3 else "all 4096 permission bit values"))
 OBLIGATIONS += [ser(k, ["quick", "thorough"]) for k in (1, 2, 3, 4, 5)]
+OBLIGATIONS.append(dict(name="tar2sqfs_process_tarball_n1", harness="harness/C13_tarball.c", sources=[], included_sources=["bin/tar2sqfs/src/process_tarball.c"],
+    incdirs=["bin/tar2sqfs/src"], defines=dict(NENT=1), unwind=6, leak=True, tiers=["quick", "thorough"], timeout=300,
+    fp_map={"destroy": ["dtor_in", "dtor_out"], "flush": ["flush_stub"], "next": ["it_next"], "read_link": ["it_read_link"], "open_file_ro": ["it_open_file_ro"], "read_xattr": ["it_read_xattr"]},
+    reach=["success", "failure", "root"],
+    functions=["process_tarball, create_node_and_repack_data, set_root_attribs, copy_xattr, write_file (bin/tar2sqfs/src/process_tarball.c)"],
+    bound="1 archive entry of symbolic kind (file, directory, symlink, hard link, device; root or named), any 64 bit time stamp, 0..2 xattrs, every step may fail; no --root-becomes"))
 OBLIGATIONS.append(dict(name="packfile_keywords", harness="harness/C01_packfile.c",
     sources=["lib/util/src/parse_int.c", "lib/util/src/canonicalize_name.c", "lib/util/src/split_line.c", "lib/util/src/alloc.c"], stubs=["stubs/vp_ctype.c", "stubs/vp_sysmacros.c"],
     included_sources=["bin/gensquashfs/src/fstree_from_file.c"], incdirs=["bin/gensquashfs/src"], unwind=12, tiers=["quick", "thorough"], timeout=300, reach=["done"],
